@@ -39,6 +39,8 @@ func RunHistory(t *rapid.T, prof *Profile, mons ...Monitor) {
 			w.Flags["prefix-ids-genesis"] = true
 		} else if strings.HasPrefix(n, "chain-id=regen-1") || strings.HasPrefix(n, "chain-id=regen-redwood-1") {
 			w.Flags["real-network-chain-id"] = true
+		} else if strings.HasPrefix(n, "initial-height=") {
+			w.Flags["initial-height>1"] = true
 		} else if strings.HasPrefix(n, "legacy-batches{") {
 			w.Flags["legacy-genesis-batches"] = true
 		}
@@ -112,6 +114,16 @@ func (w *World) Step(kind string) {
 // ahead, with a mode that lands exactly on (or 1 ns around) a pending
 // sell-order expiration.
 func (w *World) nextTime() time.Time {
+	// a block header's time is a protobuf timestamp (years 1..9999) and later blocks must be later still: the
+	// harness keeps block times below the year 9000
+	t := w.nextTime0()
+	if limit := time.Date(9000, 1, 1, 0, 0, 0, 0, time.UTC); t.After(limit) {
+		t = w.C.Time.Add(time.Duration(1+w.intn("dt.late", 30)) * time.Second)
+	}
+	return t
+}
+
+func (w *World) nextTime0() time.Time {
 	bt := w.C.Time
 	x := w.intn("dt", 100)
 	switch {
